@@ -49,12 +49,15 @@ func init() {
 		ID:   "C17",
 		Race: true,
 		Rule: "One case = one history: layout (plain file | symlink to a file in another directory | k8s AtomicWriter layout), decoder (json|yaml; in 30% of histories behind a harness decoder that drains its reader with io.Copy / io.WriterTo / io.ReaderAt instead of io.ReadAll), 1..~14 steps over " +
-			"{in-place truncate+rewrite in 1..6 pieces, in-place rewrite of the same byte length that restores the previous mtime or sets a fixed epoch mtime (cp -p / rsync --inplace -t; pwrite or O_TRUNC), write-temp+rename-over, k8s swap (with/without removing the old dir, file or link first), symlink swap (same/new dir), " +
+			"{in-place truncate+rewrite in 1..6 pieces, in-place rewrite of the same byte length that restores the previous mtime or sets a fixed epoch mtime (cp -p / rsync --inplace -t; pwrite or O_TRUNC), write-temp+rename-over, k8s swap (with/without removing the old dir, file or link first), symlink swap (same/new dir, or to a sibling in the watched path's own directory), layout change by rename-over of the watched path (regular file -> symlink into another directory or to a sibling; symlink -> regular file; any number of times per history), " +
 			"delete+recreate (in place or renamed in), identical bytes (in place and atomic), malformed or empty content (incl. well-formed content rejected by a text-unmarshalable field with an error wrapping fs.ErrNotExist), revert to the last good bytes, sync point, gate (watcher held between its read and its report/watch repair while 1-2 steps run)} " +
 			"with seeded pauses (none, yield, 20us..50ms) and a seeded delay table on the file.read hook. A history is distinct by (layout, decoder, step-kind sequence with identical/revert/malformed/piece-count/variant marks) " +
 			"and non-trivial when it has at least one content-changing step and the watcher was observed re-reading the file at least once. " +
 			"Plus one scripted fault sequence in the first shard (first four in thorough): the watcher is stalled at the file.read hook, 2 x max_queued_events create+remove pairs overflow the inotify queue " +
-			"(confirmed by the descriptor's FIONREAD count no longer growing), the config is replaced by rename-over, the watcher is released; the view must converge (key no-converge:after-queue-overflow).",
+			"(confirmed by the descriptor's FIONREAD count no longer growing), the config is replaced by rename-over, the watcher is released; the view must converge (key no-converge:after-queue-overflow). " +
+			"Plus scripted schedules in every shard (6 quick / 60 thorough; config type with a Verify() the episode holds): the monitor is held in Verify() of one content, the watcher reads the next content (valid or malformed) and is seen, in a goroutine dump, " +
+			"blocked handing its report to dials (20%: seeded pause instead of the fence), the context is cancelled and Verify is let go (seeded gap and order); only the release clause is judged " +
+			"(key watcher-goroutine-survives-cancel:watchLoop-blocked-in-report-after-monitor-exit when, in 3 dumps >= 220ms apart, watchLoop is parked inside (*watchArgs).Report* and the monitor goroutine no longer exists).",
 		Assumptions: []string{
 			"expected config = fresh dials.Config over a static in-memory source of the final bytes with the same decoder (decoders are trusted here; file.go is the code under test)",
 			"a sync point resets the set of admissible views only when the synced content is fresh (unique alpha) and was put in place atomically, so every later read sees complete contents",
@@ -67,10 +70,12 @@ func init() {
 		MinCounters: map[string]map[string]int64{
 			"quick": {"final_valid_converged": 1200, "final_invalid_error_seen": 600, "identical_windows_judged": 500, "syncs_passed": 1800,
 				"release_checked": 3500, "hook_reads": 20000, "gates_held": 1500, "probe_selftest_ok": 300, "admissible_view_judged": 300, "fd_audits_ok": 3500,
-				"queue_overflow_confirmed": 1, "keep_mtime_same_length_rewrites": 800, "final_invalid_decoder_notexist_error_seen": 40, "histories_with_reader_style_decoder": 800},
+				"queue_overflow_confirmed": 1, "keep_mtime_same_length_rewrites": 800, "final_invalid_decoder_notexist_error_seen": 40, "histories_with_reader_style_decoder": 800,
+				"cancel_pending_episodes": 40, "cancel_pending_report_seen_blocked": 20, "steps:to-symlink": 400, "steps:to-regular": 250},
 			"thorough": {"final_valid_converged": 20000, "final_invalid_error_seen": 10000, "identical_windows_judged": 9000, "syncs_passed": 30000,
 				"release_checked": 60000, "hook_reads": 300000, "gates_held": 25000, "probe_selftest_ok": 5000, "admissible_view_judged": 5000, "fd_audits_ok": 60000,
-				"queue_overflow_confirmed": 3, "keep_mtime_same_length_rewrites": 15000, "final_invalid_decoder_notexist_error_seen": 800, "histories_with_reader_style_decoder": 15000},
+				"queue_overflow_confirmed": 3, "keep_mtime_same_length_rewrites": 15000, "final_invalid_decoder_notexist_error_seen": 800, "histories_with_reader_style_decoder": 15000,
+				"cancel_pending_episodes": 800, "cancel_pending_report_seen_blocked": 400, "steps:to-symlink": 8000, "steps:to-regular": 5000},
 		},
 		Plan: func(tier string) fw.Plan {
 			if tier == "thorough" {
@@ -95,7 +100,9 @@ func runC17(w *fw.Worker) {
 	}
 	if w.ReplayCase >= 0 {
 		w.Begin(w.ReplayCase)
-		if w.ReplayCase >= w.N {
+		if w.ReplayCase > w.N {
+			env.runCancelCase(w.ReplayCase)
+		} else if w.ReplayCase == w.N {
 			env.runOverflowCase(w.ReplayCase)
 		} else {
 			env.runCase(w.ReplayCase)
@@ -110,6 +117,18 @@ func runC17(w *fw.Worker) {
 	}
 	sem := make(chan struct{}, c17Conc)
 	var wg sync.WaitGroup
+	// scripted schedules (cancellation while a report is pending): case indices w.N+1..
+	for k := 1; k <= c17CancelEpisodes(w); k++ {
+		sem <- struct{}{}
+		w.Begin(w.N + k)
+		wg.Add(1)
+		go func(i int) {
+			defer wg.Done()
+			defer func() { <-sem }()
+			env.runCancelCase(i)
+		}(w.N + k)
+	}
+	wg.Wait()
 	for i := 0; i < w.N; i++ {
 		sem <- struct{}{}
 		w.Begin(i)
@@ -211,7 +230,10 @@ type c17Run struct {
 	ws     *file.WatchingSource
 	d      *dials.Dials[c17Cfg]
 	cancel context.CancelFunc
-	ptrs   c17Ptrs
+	// cancelScript, when set, is run by release(true) in place of the plain
+	// cancel (scripted schedules around the cancellation).
+	cancelScript func()
+	ptrs         c17Ptrs
 
 	mu        sync.Mutex
 	decErrs   int
@@ -338,6 +360,8 @@ func (r *c17Run) opClass() string {
 // could not re-resolve the path while the target was missing, so its directory
 // watch and/or its event-name filter still describe the previous target).
 //
+// "config-dir-not-watched" (any layout): see below; checked first.
+//
 // "update-lost-while-moving-dir-watch": symlinked layout; the current target
 // directory IS watched now but was NOT in the watch list when the watcher did
 // its last read that found the file (the file.read hook runs between the read
@@ -375,14 +399,29 @@ func (r *c17Run) postMortem(final []byte, cond func() bool, wit map[string]any) 
 	}
 	wit["swaps_done"] = doneTotal
 	wit["last_read_that_found_the_file"] = map[string]int64{"swaps_started": startedLast, "swaps_done": doneLast, "swaps_done_at_the_one_before": donePrev}
+	// "config-dir-not-watched": the directory that holds the watched path
+	// itself is no longer in the watcher's fsnotify watch list, so nothing
+	// that replaces the watched path (rename-over of a file or of a symlink)
+	// can produce an event any more.
+	cfgDirWatched := wl == nil
+	for _, p := range wl {
+		if p == strings.TrimPrefix(r.fs.cfgDir, r.fs.root+"/") {
+			cfgDirWatched = true
+		}
+	}
+	wit["config_dir_watched"] = cfgDirWatched
+	wit["layout_at_verdict"] = r.fs.layout
 	rec := r.nudge(final, cond)
 	wit["nudge_recovers"] = rec
-	if r.h.Layout == "plain" || rerr != nil || wl == nil {
+	if !cfgDirWatched {
+		return "config-dir-not-watched"
+	}
+	if r.fs.layout == "plain" || rerr != nil || wl == nil {
 		return r.opClass()
 	}
 	delAfterSwap, swapSeen := false, false
 	for _, k := range r.executed {
-		if strings.HasPrefix(k, "k8s-swap") || strings.HasPrefix(k, "symlink-swap") {
+		if strings.HasPrefix(k, "k8s-swap") || strings.HasPrefix(k, "symlink-swap") || strings.HasPrefix(k, "to-symlink") {
 			swapSeen = true
 		}
 		if swapSeen && strings.HasPrefix(k, "delete-recreate") {
@@ -809,7 +848,8 @@ func (r *c17Run) execute() {
 			}
 		}
 		b := h.Contents[nc].Bytes
-		if op.Kind == "k8s-swap" || op.Kind == "symlink-swap" {
+		isSwap := op.Kind == "k8s-swap" || op.Kind == "symlink-swap" || op.Kind == "to-symlink"
+		if isSwap {
 			r.hook.swaps.Add(1)
 		}
 		var oerr error
@@ -832,12 +872,19 @@ func (r *c17Run) execute() {
 		case "k8s-swap":
 			oerr = fs.k8sSwap(b, op.FileFirst, op.RemoveOld)
 		case "symlink-swap":
-			oerr = fs.symlinkSwap(b, op.NewDir, op.RemoveOld, ext)
+			oerr = fs.swapLink(b, op.NewDir, op.RemoveOld, op.Sibling, ext)
+		case "to-symlink":
+			oerr = fs.swapLink(b, true, false, op.Sibling, ext)
+		case "to-regular":
+			oerr = fs.toRegular(b, op.RemoveOld)
 		default:
 			oerr = fmt.Errorf("unknown step kind %q", op.Kind)
 		}
-		if op.Kind == "k8s-swap" || op.Kind == "symlink-swap" {
+		if isSwap {
 			r.hook.swapsDone.Add(1)
+		}
+		if op.Sibling {
+			w.Count("steps_symlink_to_sibling", 1)
 		}
 		if oerr != nil {
 			r.inconclusive = fmt.Sprintf("harness: step %d (%s) failed: %v", oi, op.Kind, oerr)
@@ -1014,21 +1061,54 @@ func (r *c17Run) release(judge bool) {
 	r.hook.releaseGate()
 	r.hook.off.Store(true)
 	a.mu.RLock()
+	if r.cancelScript != nil && judge {
+		// a scripted schedule cancels in its own way (inside the audit's
+		// read section, like every cancel)
+		r.cancelScript()
+	}
 	r.cancel()
 	done := make(chan struct{})
 	go func() {
 		r.ws.WG.Wait()
 		close(done)
 	}()
+	// Wait for WG.Wait(). The watchdog only ever yields "inconclusive"; the
+	// wait ends early when STATE shows that it cannot return: in
+	// c17IdleProbes consecutive dumps >= c17ProbeSpacing apart watchLoop is
+	// parked inside one of dials' report methods (a hand-over on the channel
+	// only the monitor receives from) and the monitor goroutine of this
+	// Dials is gone.
 	t := time.NewTimer(c17Watchdog)
 	returned := false
-	select {
-	case <-done:
-		returned = true
-		a.addLive(-1)
-	case <-t.C:
+	blockedRun := 0
+	var blockedDumps []any
+	probe := time.NewTimer(c17ProbeAfter)
+waitWG:
+	for {
+		select {
+		case <-done:
+			returned = true
+			a.addLive(-1)
+			break waitWG
+		case <-t.C:
+			break waitWG
+		case <-probe.C:
+			gs := c17Dump()
+			w.Count("release_wait_probes", 1)
+			if st, ok := c17BlockedInReport(gs, r.ptrs); ok {
+				blockedRun++
+				blockedDumps = append(blockedDumps, st)
+			} else {
+				blockedRun, blockedDumps = 0, nil
+			}
+			if blockedRun >= c17IdleProbes {
+				break waitWG
+			}
+			probe.Reset(c17ProbeSpacing)
+		}
 	}
 	t.Stop()
+	probe.Stop()
 	a.mu.RUnlock()
 
 	confirmStuck := func() (bool, []any) {
@@ -1062,8 +1142,22 @@ func (r *c17Run) release(judge bool) {
 			}
 			parked = parked && ok
 		}
+		// second class, equally decided by state: in every dump watchLoop is
+		// parked inside (*watchArgs).Report* and the monitor - the only
+		// receiver of that channel - no longer exists
+		inReport := stuck && blockedRun >= c17IdleProbes
+		if inReport {
+			gs := c17Dump()
+			if _, ok := c17BlockedInReport(gs, r.ptrs); !ok {
+				inReport = false
+			}
+		}
 		if parked && judge {
 			r.violation("watcher-goroutine-survives-cancel:watchLoop", "the context was cancelled, WG.Wait() does not return and watchLoop stays parked in its select", map[string]any{"dumps": seen})
+		} else if inReport && judge {
+			r.violation("watcher-goroutine-survives-cancel:watchLoop-blocked-in-report-after-monitor-exit",
+				"the context was cancelled, the Dials monitor goroutine has exited, and watchLoop stays parked in a report to dials (a channel hand-over that only the monitor could complete): WG.Wait() can never return, the fsnotify watcher is never closed",
+				map[string]any{"dumps": seen, "watch_loop_in_report_dumps": blockedDumps})
 		} else if r.inconclusive == "" {
 			r.inconclusive = fmt.Sprintf("WG.Wait() did not return within the watchdog; goroutines: %v", seen)
 		}
